@@ -87,6 +87,7 @@ func (w *World) analyseFrame(rel string) *frameResult {
 	})
 	errName := fl.resultName(0)
 	snapVar := ""
+	ncVar := ""
 	addRet := func(ord int, rule, msg string) {
 		if res.retViol[ord] == nil {
 			res.retViol[ord] = map[string][]string{}
@@ -220,12 +221,25 @@ func (w *World) analyseFrame(rel string) *frameResult {
 					// R6.1: the gas handed to the post join point is the callee's leftover
 					gkey := "R6.1:" + rel + "/post-gas-arg"
 					siteV(gkey, call.Pos(), "")
-					if g := jpGasArg(fl, call); g == "" || !f["A:"+g+"=contract.Gas"] {
-						siteV(gkey, call.Pos(), "the gas passed to the post-call join point is not the callee's leftover (gas = contract.Gas does not reach it)")
+					frameVar := ncVar // the variable holding the frame that ran (assigned from NewContract on this path)
+					if frameVar == "" {
+						frameVar = "contract"
+					}
+					if g := jpGasArg(fl, call); g == "" || !f["A:"+g+"="+frameVar+".Gas"] {
+						siteV(gkey, call.Pos(), "the gas passed to the post-call join point is not the callee's leftover (gas = "+frameVar+".Gas does not reach it)")
 					}
 				}
 			}
 			if fl.calleeIs(call, "EVMInterpreter", "Run") && rel == "(*EVM).Call" {
+				// R6.1: the frame that runs is one built after the pre-call join point (so that it starts
+				// with what the join point left), and it is the frame handed to the interpreter
+				gkey := "R6.1:" + rel + "/callee-frame"
+				siteV(gkey, call.Pos(), "")
+				if !f["nc"] {
+					siteV(gkey, call.Pos(), "the callee frame handed to the interpreter was constructed before the pre-call join point (or not on this path): gas consumed by the join point is not deducted from what the callee starts with")
+				} else if len(call.Args) >= 2 && ncVar != "" && fl.canon(call.Args[1]) != ncVar {
+					siteV(gkey, call.Pos(), "the frame handed to the interpreter (`"+fl.canon(call.Args[1])+"`) is not the one constructed with the join point's leftover gas (`"+ncVar+"`)")
+				}
 				key := "R5.3:" + rel + "/run"
 				siteV(key, call.Pos(), "")
 				if f["L:evm.IsExecuteJP=T"] && !f["pre"] {
@@ -278,9 +292,17 @@ func (w *World) analyseFrame(rel string) *frameResult {
 				}
 			case fl.calleeIs(call, "EVMInterpreter", "Run"):
 				f["run"] = true
+			case fl.calleeIs(call, "", "NewContract"):
+				f["nc"] = true
+				if as, ok := n.(*ast.AssignStmt); ok && len(as.Lhs) == 1 {
+					ncVar = fl.canon(as.Lhs[0])
+				}
 			}
 			if k := isJPCall(fl, call); k != "" {
 				f[k] = true
+				if k == "pre" {
+					delete(f, "nc") // a frame built before the join point carries the gas from before it
+				}
 			}
 		}
 	}
